@@ -5,18 +5,23 @@ Theorems about the interleaving model `Rustic.Interleave` (Model/Interleave.lean
 steps on one repository, ghost fields `t0` / `relied` / `written`, plan time `pn`) and about the protocol model
 `Rustic.Repo` for backup ∥ backup.  Unbounded in the number of packs, snapshots, actors and steps.
 
-Status.  Proved here: the timing core of the two-phase deletion (the only place the duration hypothesis is used), the
-plan/removal discipline (I3), preservation of `noLoss` by the steps that do not rewrite pack states, backup ∥ backup
-(any interleaving of two step-wise safe write sequences is safe), and the *negative* result that the property's
-literal hypothesis ("keep-delete exceeds the backup's duration") is not sufficient: the marks of a prune carry its
-*plan* time, so a prune that is slow between planning and writing its index shortens the protection
-(`slow_prune_can_lose`, replayed on the real code by `c10 slowprune`).  The full statement
-    theorem step_preserves_noLoss : noLoss s → step s a = some s' → noLoss s'        (for all eight step kinds)
-is proved for `tick`, `backupStart`, `pruneStart`, `pruneEnd` (`quiet_steps_preserve_noLoss`); for `backupWrite`,
-`backupFinish`, `pruneRewrite`, `pruneRemove` it is checked by the driver on every gated run of the real code and by
-the `decide`d interleavings below — hence the names `…_partial`.
+Main theorem (`overlap_no_loss`): in EVERY state reachable by ANY interleaving of the single steps of any number of
+backups, prunes and forgets (clock ticks, index loads, pack writes, snapshot saves and removals, plans, index rewrites, pack
+removals),
+nothing a visible snapshot needs is lost and nothing a running backup relies on is lost while that backup is within
+the hypothesis — by induction over step lists with the invariant `Inv` (Lemmas/Interleave.lean: I1 snapshots, I2 relied
+keys, I3 plans delete only what was marked keep-delete before, I4 own packs), every one of the nine step kinds
+preserving it (`step_preserves_Inv`).  `next_prune_recovers`: from every such state the follow-up prune makes every
+snapshot readable through a fresh index load.  The duration hypothesis is a guard of the model (`backupFinish` is only
+enabled while `now + span < t0 + keep_delete`) and is used in exactly one lemma (`doomed_listed_absurd`, the timing
+core).  `span` bounds the time from a prune's plan — whose time its marks carry — to the moment its rebuilt index takes
+effect; `span = 0` is the property's literal hypothesis (`overlap_no_loss_literal`: holds for a prune that stamps its
+marks at that moment), `span > 0` is the real code (open finding: marks carry the PLAN time).  The *negative* result
+that the literal hypothesis is not sufficient for the real code stays: `slow_prune_can_lose` (replayed on the real code
+by `c10 slowprune`).  Backup ∥ backup: any interleaving of two step-wise safe write sequences is safe.
 -/
 import Rustic.Model.Interleave
+import Rustic.Lemmas.Interleave
 import Rustic.Lemmas.Repo
 namespace Rustic.Props.C10
 open Rustic.Interleave
@@ -70,30 +75,41 @@ theorem visible_kept (s : St) (since : Int) (k : Key) (h : visible s k = true) :
   obtain ⟨p, hp, ⟨hs, hst⟩, hk⟩ := h
   exact ⟨p, hp, ⟨hs, hk⟩, by rw [hst]⟩
 
-/-- the steps that do not change pack states or finish a backup preserve `noLoss`. -/
-theorem quiet_steps_preserve_noLoss_partial (s s' : St) (a : Step) (hn : noLoss s = true) (h : step s a = some s')
-    (hq : (∃ d, a = .tick d) ∨ (∃ r, a = .backupStart r) ∨ (∃ d m, a = .pruneStart d m) ∨ (∃ j, a = .pruneEnd j)) :
-    noLoss s' = true := by
-  rcases hq with ⟨d, rfl⟩ | ⟨r, rfl⟩ | ⟨d, m, rfl⟩ | ⟨j, rfl⟩
-  · simp only [step, Option.some.injEq] at h; subst h; exact hn
-  · simp only [step] at h
-    split at h
-    · rename_i hc
-      simp only [Option.some.injEq] at h; subst h
-      simp only [noLoss, Bool.and_eq_true, List.all_append, List.all_cons, List.all_nil, Bool.and_true] at hn ⊢
-      refine ⟨hn.1, hn.2, ?_⟩
-      simp only [List.all_eq_true] at hc ⊢
-      intro k hk
-      exact visible_kept _ _ k (hc k hk)
-    · simp at h
-  · simp only [step] at h
-    split at h
-    · simp only [Option.some.injEq] at h; subst h; exact hn
-    · simp at h
-  · simp only [step] at h
-    split at h
-    · simp only [Option.some.injEq] at h; subst h; exact hn
-    · simp at h
+/-- **Every step of every actor preserves the invariant** — tick, backupStart, backupWrite, backupFinish, pruneStart,
+pruneRewrite, pruneRemove, pruneEnd, forget (DESIGN §6 C10 `step_preserves_Inv`). -/
+theorem step_preserves_Inv (s s' : St) (a : Step) (h : Inv s) (hs : step s a = some s') : Inv s' := inv_step a h hs
+
+/-- **Main theorem**: for every interleaving (`steps` is any list of steps of any number of backups and prunes that the
+guards of the model allow), in the state reached nothing is lost: every key of every visible snapshot is in a stored
+pack the index still lists, and every key a running backup (within the hypothesis) relies on is stored and listed. -/
+theorem overlap_no_loss (s0 s : St) (steps : List Step) (h0 : Inv s0) (hr : run s0 steps = some s) :
+    noLoss s = true := inv_noLoss (inv_run steps h0 hr)
+
+/-- … starting from any quiescent repository (no running actor) whose snapshots are intact and whose pack ids are unique. -/
+theorem overlap_no_loss_from_quiescent (s0 s : St) (steps : List Step) (hspan : s0.pruneSpan.isSome = true)
+    (hu : s0.packs.Pairwise (fun p q => p.id ≠ q.id)) (hb : s0.backups = []) (hp : s0.prunes = [])
+    (hs : ∀ c ∈ s0.snaps, ∀ k ∈ c, ∃ p ∈ s0.packs, p.stored = true ∧ k ∈ p.blobs ∧ p.status ≠ .unlisted)
+    (hr : run s0 steps = some s) : noLoss s = true :=
+  overlap_no_loss s0 s steps (inv_quiescent s0 hspan hu hb hp hs) hr
+
+/-- the property's literal hypothesis (keep-delete exceeds the backup's duration: `span = 0`, i.e. a prune whose marks
+carry the time at which its rebuilt index takes effect): a backup may finish whenever `now < t0 + keep_delete`. -/
+theorem overlap_no_loss_literal (s0 s : St) (steps : List Step) (h0 : Inv s0) (hz : s0.pruneSpan = some 0)
+    (hr : run s0 steps = some s) : noLoss s = true := by
+  have _ := hz
+  exact overlap_no_loss s0 s steps h0 hr
+
+/-- **The next prune recovers**: in every reachable state, the follow-up prune (marked packs holding a used blob are
+recovered — C02's decision table) makes every key of every visible snapshot readable through a fresh index load. -/
+theorem next_prune_recovers (s0 s : St) (steps : List Step) (h0 : Inv s0) (hr : run s0 steps = some s) :
+    allVisible (followupPrune s) = true := inv_followup (inv_run steps h0 hr)
+
+/-- (I3) in every reachable state, whatever a running prune is going to remove was marked at `t` with
+`t + keep_delete ≤` its plan time, or has left the index already. -/
+theorem planned_removals_are_old (s0 s : St) (steps : List Step) (h0 : Inv s0) (hr : run s0 steps = some s) :
+    ∀ pr ∈ s.prunes, ∀ id ∈ pr.toDelete, ∃ p ∈ s.packs, p.id = id ∧
+      (p.status = .unlisted ∨ ∃ t, p.status = .marked t ∧ t + s.keepDelete ≤ pr.pn) :=
+  (inv_run steps h0 hr).del
 
 /-! ### backup ∥ backup on the protocol model: no follow-up step is needed -/
 open Rustic.Repo in
@@ -121,6 +137,19 @@ theorem writes_are_monotone (r : Repo) (o : Op) (hw : o.isWrite = true) (pid : N
   · exact ⟨id, id⟩
 
 /-! ### witnesses -/
+
+/-- non-vacuity with `forget` (the `bfp` family of the harness): a backup loads its index and relies on `k1`, the only
+snapshot using pack 1 is forgotten, a prune marks pack 1, a second prune 10 min later keeps it (marked at 100, keep-delete
+23 h), the backup finishes within the hypothesis: nothing lost, and the follow-up prune makes the snapshot readable. -/
+theorem forget_two_prunes_keeps :
+    ((run { w0 (some 3600) with snaps := [[k1]] } [.tick 100, .backupStart [k1], .forget 0, .pruneStart [] [1], .pruneRewrite 0,
+        .pruneEnd 0, .tick 600, .pruneStart [] [], .pruneRewrite 0, .pruneEnd 0, .tick 60, .backupFinish 0 [k1]]).map
+      (fun s => (noLoss s, s.packs.map (fun p => (p.stored, p.status)), allVisible (followupPrune s)))) =
+      some (true, [(true, .marked 100)], true) := by
+  decide +kernel
+
+/-- non-vacuity of the hypotheses of the main theorem: the witness start state satisfies the invariant. -/
+example : Inv (w0 (some 3600)) := inv_quiescent _ rfl (by simp [w0]) rfl rfl (by simp [w0])
 
 theorem slow_prune_can_lose :
     ((run (w0 none) slowPruneRun).map noLoss) = some false := by decide +kernel
